@@ -71,6 +71,14 @@ Definition simple_comment (c : comment) : bool :=
   | ls => forallb simple_comment_line ls && existsb (fun b => negb (N.eqb b 32)) (last ls [])
   end.
 
+(* the same without the condition on the last line (used by the generic development EntryLoop.v, where the
+   position of the comment decides whether an empty last line is lost) *)
+Definition wide_comment (c : comment) : bool :=
+  match content c with
+  | [] => false
+  | ls => forallb simple_comment_line ls
+  end.
+
 Definition plain_entry (e : entry) : bool :=
   match e with
   | CommentEntry c | GroupComment c | ResourceComment c => simple_comment c
@@ -1866,20 +1874,21 @@ Qed.
 
 (* the loop over all lines of a printed comment; what is left to do is the stopping step at `rest` *)
 Lemma comment_loop_lines P lvl ls C : comment_layout P ls C -> prefix_level P lvl ->
-  forallb simple_comment_line ls = true -> last ls [] <> [] ->
-  forall rest lvl0 content p n, (lvl0 = LNone \/ lvl0 = lvl) -> line_end_or_eof rest ->
+  forallb simple_comment_line ls = true ->
+  forall rest, (last ls [] = [] -> rest <> []) ->
+  forall lvl0 content p n, (lvl0 = LNone \/ lvl0 = lvl) -> line_end_or_eof rest ->
   at_ bs p (C ++ rest) -> length ls <= n ->
   get_comment_loop bs n lvl0 content p =
   get_comment_loop bs (n - length ls) lvl (rev ls ++ content) (eol_len rest + (length C + p)).
 Proof.
-  intros HC HP. induction HC as [l | l x r C Hx Hr HC IH]; intros Hs Hlast rest lvl0 content p n Hl0 Hrest H Hn.
+  intros HC HP. induction HC as [l | l x r C Hx Hr HC IH]; intros Hs rest Hlast lvl0 content p n Hl0 Hrest H Hn.
   - cbn [forallb] in Hs. apply andb_prop in Hs as [Hl _]. cbn [last] in Hlast.
     destruct n as [|n]; [cbn [length] in Hn; lia|].
     rewrite <- app_assoc in H.
-    rewrite (comment_line_step P lvl l rest lvl0 content p n HP Hl0 Hl Hrest ltac:(congruence) H).
+    rewrite (comment_line_step P lvl l rest lvl0 content p n HP Hl0 Hl Hrest Hlast H).
     cbn [length rev app]. replace (S n - 1) with n by lia. reflexivity.
   - cbn [forallb] in Hs. apply andb_prop in Hs as [Hl Hs].
-    assert (Hlast' : last r [] <> []) by (destruct r; [congruence | exact Hlast]).
+    assert (Hlast' : last r [] = [] -> rest <> []) by (destruct r; [congruence | exact Hlast]).
     destruct n as [|n]; [cbn [length] in Hn; lia|].
     assert (H' : at_ bs p (P ++ sl l ++ x ++ C ++ rest)) by (rewrite <- !app_assoc in H; exact H).
     rewrite (comment_line_step P lvl l (x ++ C ++ rest) lvl0 content p n HP Hl0 Hl
@@ -1891,7 +1900,7 @@ Proof.
       replace (length x + (length (sl l) + (length P + p))) with (length x + (length (P ++ sl l) + p)) in H2
         by (rewrite app_length; lia).
       exact H2. }
-    rewrite (IH Hs Hlast' rest lvl (l :: content) _ n (or_intror eq_refl) Hrest H2 ltac:(cbn [length] in Hn; lia)).
+    rewrite (IH Hs rest Hlast' lvl (l :: content) _ n (or_intror eq_refl) Hrest H2 ltac:(cbn [length] in Hn; lia)).
     cbn [length rev]. rewrite <- app_assoc. cbn [app].
     f_equal. rewrite !app_length. lia.
 Qed.
@@ -1975,7 +1984,7 @@ Lemma prefix_level_not_none P lvl : prefix_level P lvl -> lvl <> LNone.
 Proof. intros [[_ ->] | [[_ ->] | [_ ->]]]; discriminate. Qed.
 
 Lemma comment_entry_step P lvl ls C T used c S' p n :
-  comment_layout P ls C -> prefix_level P lvl -> forallb simple_comment_line ls = true -> last ls [] <> [] ->
+  comment_layout P ls C -> prefix_level P lvl -> forallb simple_comment_line ls = true -> (last ls [] = [] -> T <> []) ->
   entry_tail T used c S' -> next_after_comment lvl c S' -> at_ bs p (C ++ T) -> length ls + 1 <= n ->
   exists p1 cnt, get_comment_loop bs n LNone [] p = Ok (Comment ls, lvl) p1 /\
                  skip_blank_block bs p1 = Ok cnt (used + (length C + p)) /\ ((1 <= c -> cnt = S c) /\ cnt <= S c).
@@ -1983,7 +1992,7 @@ Proof.
   intros HC HP Hs Hlast HT Hnext H Hn.
   assert (Hrest : line_end_or_eof T).
   { destruct HT as [|x c' BL nx Hx HBL Hn']; [left; reflexivity | right; exists x, (BL ++ nx); auto]. }
-  rewrite (comment_loop_lines P lvl ls C HC HP Hs Hlast T LNone [] p n (or_introl eq_refl) Hrest H ltac:(lia)).
+  rewrite (comment_loop_lines P lvl ls C HC HP Hs T Hlast LNone [] p n (or_introl eq_refl) Hrest H ltac:(lia)).
   rewrite app_nil_r.
   destruct (n - length ls) as [|m] eqn:Em; [lia|].
   pose proof (at_app _ _ _ _ H) as H0.
@@ -2015,6 +2024,43 @@ Proof.
       destruct (comment_stop_other lvl (rev ls) x (S c) BL S' b t _ m Hx HBL Eb Hb HS' H0) as [p1 [E1 E2]].
       exists p1, (S (S c)). rewrite E1, rev_involutive. split; [reflexivity | split; [|split; [reflexivity | lia]]].
       rewrite E2. f_equal; lia.
+Qed.
+
+(* finding D7: behind the last line of a comment, a line end and a bare prefix of the same level at the END of
+   the input (the printed form of an empty last line without a final line end): the loop returns the comment
+   WITHOUT that last line *)
+Lemma comment_loop_stop_bare P lvl content p n :
+  prefix_level P lvl -> at_ bs p P ->
+  get_comment_loop bs (S n) lvl content p = Ok (Comment (rev content), lvl) (length P + p).
+Proof.
+  intros HP H.
+  assert (H' : at_ bs p (P ++ [])) by (rewrite app_nil_r; exact H).
+  destruct (get_comment_level_prefix P lvl [] p HP Logic.I H') as [Elvl Hnum].
+  cbn [get_comment_loop]. rewrite bind_get_ptr.
+  assert (Hlt : Nat.ltb p (length_ bs) = true).
+  { destruct HP as [[-> _] | [[-> _] | [-> _]]]; apply (at_ltb _ _ _ _ H). }
+  rewrite Hlt. cbn [negb]. step Elvl.
+  assert (Hnn : level_eqb lvl LNone = false) by (destruct HP as [[_ ->] | [[_ ->] | [_ ->]]]; reflexivity).
+  rewrite Hnn.
+  replace (level_eqb lvl lvl) with true by (destruct lvl; reflexivity). cbn [negb andb].
+  rewrite bind_get_ptr.
+  pose proof (at_app _ _ _ _ H') as H1. pose proof (at_nil_length _ _ H1) as E. unfold length_. rewrite <- E, Nat.eqb_refl.
+  reflexivity.
+Qed.
+
+Lemma comment_entry_step_d7 P lvl ls C x p n :
+  comment_layout P ls C -> prefix_level P lvl -> forallb simple_comment_line ls = true -> is_eol_bytes x ->
+  at_ bs p (C ++ x ++ P) -> length ls + 1 <= n ->
+  get_comment_loop bs n LNone [] p = Ok (Comment ls, lvl) (length (C ++ x ++ P) + p).
+Proof.
+  intros HC HP Hs Hx H Hn.
+  assert (Hrest : line_end_or_eof (x ++ P)) by (right; exists x, P; auto).
+  rewrite (comment_loop_lines P lvl ls C HC HP Hs (x ++ P) ltac:(intros _; destruct Hx as [-> | ->]; discriminate)
+             LNone [] p n (or_introl eq_refl) Hrest H ltac:(lia)).
+  rewrite app_nil_r, (eol_len_eol x _ Hx).
+  destruct (n - length ls) as [|m] eqn:Em; [lia|].
+  pose proof (at_app _ _ _ _ (at_app _ _ _ _ H)) as H2.
+  rewrite (comment_loop_stop_bare P lvl (rev ls) _ m HP H2), rev_involutive. f_equal. rewrite !app_length. lia.
 Qed.
 
 Lemma comment_layout_length P ls C : comment_layout P ls C -> P <> [] -> length ls <= length C.
@@ -2065,7 +2111,7 @@ Proof.
                               skip_blank_block bs p1 = Ok cnt (used + (length E + p)) /\ (1 <= c -> true = true -> cnt = S c) /\ cnt <= S c).
     { intros P lvl ls C mk HC HP -> Hsc Hnx Hfuel Hmk.
       destruct (simple_comment_spec ls Hsc) as [Hs Hlast].
-      destruct (comment_entry_step P lvl ls C T used c S' p n HC HP Hs Hlast HT Hnx H Hfuel) as (p1 & cnt & E1 & E2 & E3 & E4).
+      destruct (comment_entry_step P lvl ls C T used c S' p n HC HP Hs (fun E _ => Hlast E) HT Hnx H Hfuel) as (p1 & cnt & E1 & E2 & E3 & E4).
       exists p1, cnt. split; [|split; [exact E2 | split; [intros Hc _; apply E3, Hc | exact E4]]].
       unfold get_entry. rewrite bind_current_byte.
       assert (Hb : byte_at bs p = Some 35%N).
@@ -2599,3 +2645,40 @@ Proof.
   induction t as [|e r IH]; [reflexivity|]. cbn [simple_resource forallb map]. intros H.
   apply andb_prop in H as [He Hr]. rewrite (simple_entry_join e He), (IH Hr). reflexivity.
 Qed.
+
+(* ---- comments without the condition on the last line ---- *)
+Lemma wide_comment_spec ls : wide_comment (Comment ls) = true -> ls <> [] /\ forallb simple_comment_line ls = true.
+Proof. unfold wide_comment. cbn [content]. destruct ls as [|l r]; [discriminate|]. intros H. split; [discriminate | exact H]. Qed.
+
+Lemma wide_comment_ne c : wide_comment c = true -> content c <> [].
+Proof. unfold wide_comment. destruct (content c); [discriminate | discriminate]. Qed.
+
+Lemma wide_comment_wf c : wide_comment c = true -> wf_comment c = true.
+Proof.
+  unfold wide_comment, wf_comment. destruct (content c) as [|l r]; [discriminate|]. intros H.
+  cbn [negb andb]. rewrite forallb_forall in *. intros x Hx. apply (simple_comment_line_spec x (H x Hx)).
+Qed.
+
+Lemma simple_wide_comment c : simple_comment c = true -> wide_comment c = true.
+Proof.
+  unfold simple_comment, wide_comment. destruct (content c) as [|l r]; [discriminate|]. intros H.
+  apply andb_prop in H as [H _]. exact H.
+Qed.
+
+(* the last line of a stand-alone comment that is printed LAST, without a line end, must not be empty (D7) *)
+Definition eof_ok (e : entry) : Prop :=
+  match e with
+  | CommentEntry c | GroupComment c | ResourceComment c => last (content c) [] <> []
+  | _ => True
+  end.
+Definition eof_okb (e : entry) : bool :=
+  match e with
+  | CommentEntry c | GroupComment c | ResourceComment c => negb (match last (content c) [] with [] => true | _ => false end)
+  | _ => true
+  end.
+Lemma eof_okb_spec e : eof_okb e = true <-> eof_ok e.
+Proof.
+  destruct e as [? ? ? ?|? ? ? ?|c|c|c|?]; cbn [eof_okb eof_ok]; try (split; [intros _; exact Logic.I | reflexivity]);
+    (destruct (last (content c) []); cbn [negb]; split; intros H; [discriminate H | exfalso; apply H; reflexivity | discriminate | reflexivity]).
+Qed.
+Definition last_comment_ok (t : resource) : bool := match t with [] => true | _ => eof_okb (last t (Junk [])) end.
